@@ -267,8 +267,9 @@ func (t *Topic) prepareBroadcastableMessage(msg *ServerComMessage, uid types.Uid
 		}
 	}
 
-	// Send channel messages anonymously.
-	if isChanSub && msg.Data != nil {
+	// Send channel messages anonymously. A channel reader may have attached the session under
+	// the grpXXX name (isChanSub is false then): the author is withheld from the reader regardless.
+	if msg.Data != nil && (isChanSub || t.perUser[uid].isChan) {
 		msg.Data.From = ""
 	}
 }
